@@ -1165,6 +1165,9 @@ fn lower_expr_with_args(
                 return None;
             }
             let text = token.to_string();
+            // On a CRLF source the token ends before the final "\n", so `lines` would leave the
+            // "\r" of the last line in the value while it drops the one of every other line.
+            let text = text.strip_suffix('\r').unwrap_or(&text);
             let lines: Vec<&str> = text.lines().collect();
             let mut parts = Vec::with_capacity(lines.len());
             for line in lines {
